@@ -201,7 +201,9 @@ class AstAnalyzer:
             if ast_utils.is_doc_string(stmt):
                 return live_out
             if isinstance(stmt, ast.FunctionDef):
-                return live_out
+                # A nested function reads the outer-scope variables it captures: the
+                # converter binds them to their current values at the definition.
+                return live_out | self.outer_scope_variables(stmt)
             if ast_utils.is_print_call(stmt):
                 return live_out
             raise ValueError(
